@@ -151,9 +151,15 @@ def _frame(e):
     return '?'
 
 
-SUBS = [Sub('compile', cases, check, {'quick': 1500, 'thorough': 12000}, timeout=60)]
+SUBS = [Sub('compile', cases, check, {'quick': 1500, 'thorough': 12000}, timeout=25)]
 
-TRIGGERS = {}
+def _upstream_c01(case, v):
+    prog = case.get('prog', case)
+    ops = {n['op'] for n in prog['nodes']}
+    return 'diagonalize' in ops and bool(ops & {'inflate', 'take'})
+
+
+TRIGGERS = {'upstream-C01-inflate-diagonalize': _upstream_c01}
 
 MANIFEST = dict(
     category='exploration',
